@@ -1457,6 +1457,8 @@ class Interp:
                 # empty-or-not cannot be ordered: keep symbolic length (e.g. 1..n needs n>=1)
                 pass
             return IterV(Vec([Seg(n, lambda j, lo=lo: IntV(lo + j))]))
+        if isinstance(v, Bytes):
+            return IterV(Vec([Seg(isym("len_bytes"), lambda j, v=v: Opaque("byte-of", src=v, j=j))]))
         if isinstance(v, Ite):
             raise Unanalysable("iteration over a conditional value")
         raise Unanalysable(f"cannot iterate {v!r}", FX.short((node or {}).get("sp")))
